@@ -222,6 +222,14 @@ def step (s : St) (line : String) : IO St := do
     | some c => return { s with res := judgeLine c s.root s.rootId s.res line, vcount := s.vcount + 1 }
     | none => return s
   match line.splitOn " " with
+  | "cwidths" :: fields =>
+    let measured := fields.filterMap fun f => match f.splitOn "=" with
+      | [k, v] => v.toNat?.map fun n => (k, n)
+      | _ => none
+    let bad := cursorWidthFails measured
+    let corr := if bad.isEmpty then "ok" else "FAIL tie:cursor-index-widths :: tie:cursor-index-widths: " ++ ", ".intercalate bad
+    IO.println s!"cwidths-0 corr={corr} judge=ok asked=0 cwidthcase=1 measured={measured.length} assumed={assumedCursorBits.length} kind=cwidths"
+    return s
   | ["deflang", id] => return { s with mode := 1, defId := id, defLang := {} }
   | ["case", id] => return { langs := s.langs, sorted := s.sorted, id := id }
   | ["lang", l] => return { s with lang := l }
